@@ -770,7 +770,70 @@ def to_freq_form(db, ctx, rid, path, data):
         ctx.ok(rid, f, 'freq[i][j] = (count[i][j] + pseudo[j]) / sum_j (count[i][j] + pseudo[j]) for every i, j', ['same row / column on both sides', 'total over the whole row'])
 
 
+def r910(db, ctx):
+    ctx.rule('R9.10', 'rescale: every cell (i, j) of a copy of self.data becomes 0 where the new background frequency of column j is 0 and '
+                      'cell * old[j] / new[j] otherwise, for every row and every column (one ratio per column, applied in every row)')
+    from lm import reduce as RD, iteralg as IA
+    try:
+        f = db.fn('lightmotif::pwm::WeightMatrix::rescale')
+    except KeyError:
+        ctx.fail('R9.10', 'lightmotif::pwm::WeightMatrix::rescale', 'anchor', 'reason=anchor-missing')
+        return
+    R = X.Rec(f, ite=True)
+    C = RD.RCanon(db, f, R)
+    # an iterator created outside the row loop and advanced inside it (`ratios.by_ref()`) is consumed by the first row: not a per-row view
+    if any((f.callee_short(t_) or '').endswith('Iterator::by_ref') for _, t_ in f.calls()):
+        ctx.fail('R9.10', f, 'rescale', 'an iterator is shared between rows through by_ref(): it is exhausted by the first row, the later rows are not rescaled')
+        return
+    sts = [(s_, C.canon(s_['target']), C.canon(s_['value'])) for s_ in X.stores(f, R)]
+    sts += [(dict(block=fs_['block']), fs_['target'], fs_['value']) for fs_ in RD.foreach_stores(db, f, R, C)]
+    cells = [(s_, t_, v_) for s_, t_, v_ in sts if m(('at', ('at', '$M', '$i'), '$j'), t_) is not None]
+    if not cells:
+        ctx.fail('R9.10', f, 'rescale', 'reason=unrecognised-shape: no cell store data[i][j] found')
+        return
+    probs = []
+    old = ('call', 'lightmotif::abc::Background::frequencies', (('fld', ('p', 1), 'background'),))
+    is_new = lambda e_: e_[0] == 'call' and e_[1].endswith('Background::frequencies') and e_ != old
+    tg0 = cells[0][1]
+    M, pi, pj = tg0[1][1], tg0[1][2], tg0[2]
+    scaled, zero = 0, 0
+    for s_, t_, v_ in cells:
+        if t_ != tg0:
+            probs.append(f'cells are written at {X.show(t_, 60)} and {X.show(tg0, 60)}')
+            continue
+        vals = [v_] if v_[0] != 'ite' else [v_[2], v_[3]]
+        for v1 in vals:
+            if norm(v1) in (('k', 0.0), ('k', 0)):
+                zero += 1
+                continue
+            b = m(('bin', 'Mul', tg0, ('bin', 'Div', ('at', '$o', '$j1'), ('at', '$n', '$j2'))), v1) or m(('bin', 'Div', ('bin', 'Mul', tg0, ('at', '$o', '$j1')), ('at', '$n', '$j2')), v1)
+            if b is None or b['$o'] != old or not is_new(b['$n']) or b['$j1'] != pj or b['$j2'] != pj:
+                probs.append(f'cell ({X.show(pi, 20)}, {X.show(pj, 20)}) becomes {X.show(v1, 140)}, expected cell * old[j] / new[j] with the ratio of its own column')
+            else:
+                scaled += 1
+    if scaled != 1 or zero != 1:
+        probs.append(f'{scaled} scaled and {zero} zero assignments (expected one of each, on the two sides of new[j] == 0)')
+    ei = C.extents.get(pi[1]) if IA.is_pos(pi) else None
+    ej = C.extents.get(pj[1]) if IA.is_pos(pj) else None
+    if not (ei and all(c_ == ('rows', M) or (c_[0] == 'sub' and c_[2] == ('k', 0) and common.is_call_on(c_[1], 'DenseMatrix::rows', M)) for c_ in ei)):
+        probs.append(f'the rows rescaled are {ei}, expected every row of the copied matrix')
+    if not (ej and all((c_[0] == 'sub' and c_[2] == ('k', 0) and common.is_usize_const(c_[1], 'K')) or (c_[0] == 'len' and (c_[1] == ('at', M, pi) or c_[1] == old or is_new(c_[1]))) for c_ in ej)
+            and any(not (c_[0] == 'len' and (c_[1] == old or is_new(c_[1]))) or True for c_ in ej)):
+        probs.append(f'the columns rescaled are {ej}, expected every column')
+    # M is a copy of self.data
+    if M[0] == 'v':
+        ds = f.defs().get(M[1], [])
+        dn = norm(R.call(ds[0][2]), False) if len(ds) == 1 and ds[0][1] == 'term' else None
+        if dn is None or not (dn[0] == 'call' and dn[1].endswith('clone') and X.strip_refs(dn[2][0]) == ('fld', ('p', 1), 'data')):
+            probs.append('the rescaled matrix is not a clone of self.data')
+    if probs:
+        ctx.fail('R9.10', f, 'rescale', '; '.join(probs))
+    else:
+        ctx.ok('R9.10', f, 'w[i][j] := 0 if new[j] == 0 else w[i][j] * old[j] / new[j], every i and j', ['ratio of the cell\'s own column', 'every row'])
+
+
 def run(db, ctx):
+    r910(db, ctx)
     r99(db, ctx)
     r91(db, ctx)
     r92(db, ctx)
